@@ -166,6 +166,11 @@ def fresh_request_factories(ctx, repo):
                 if isinstance(e, ast.Name) and e.id == "create_func":
                     return True  # forwarded parameter
                 if isinstance(e, ast.Name):
+                    # a function defined inside the caller (a named closure instead of a lambda)
+                    inner = [x for x in ast.walk(fi2.node) if isinstance(x, (ast.FunctionDef, ast.AsyncFunctionDef)) and x.name == e.id and x is not fi2.node]
+                    if len(inner) == 1:
+                        rets = [x.value for x in ast.walk(inner[0]) if isinstance(x, ast.Return) and x.value is not None]
+                        return bool(rets) and all(makes_request(x, fi2.cls) for x in rets)
                     # a local name bound once to a factory expression
                     binds = [x.value for x in ast.walk(fi2.node) if isinstance(x, ast.Assign) and len(x.targets) == 1 and isinstance(x.targets[0], ast.Name) and x.targets[0].id == e.id]
                     return len(binds) == 1 and depth < 2 and is_factory(binds[0], depth + 1)
@@ -424,7 +429,15 @@ def check(ctx):
     gq = cfg_of(qs)
     for n, c in calls_named(gq, "sendto"):
         facts = gq.guard_atoms(n)
-        ctx.ob("R3", f"{qs.qual}::only-when-open", ("self.isopen", True) in facts, f"{qs.qual}: sends although the transport may be closed; guards {sorted(facts)}", loc(qs, n.ast))
+        # "open" as the isopen property defines it: the property itself, or the test its body returns
+        open_atoms = {("self.isopen", True)}
+        iop = repo.method(PROTO, "isopen", required=False)
+        if iop is not None:
+            from ..cfg import atoms as _atoms
+            for r_ in ast.walk(iop.node):
+                if isinstance(r_, ast.Return) and r_.value is not None:
+                    open_atoms |= set(_atoms(r_.value, True))
+        ctx.ob("R3", f"{qs.qual}::only-when-open", bool(open_atoms & set(facts)), f"{qs.qual}: sends although the transport may be closed; guards {sorted(facts)}", loc(qs, n.ast))
 
     # ---- R4 gates -------------------------------------------------------------
     spa = repo.cls("GeckoAsyncSpa")
